@@ -354,16 +354,19 @@ func NewMonitor(publisher Publisher, handler Handler) (kcache.Monitor, error) {
 			handler.OnInitialize(aobjs)
 		}).
 		OnCreate(func(obj metav1.Object) {
-			aobj, _ := adapter.adaptObject(obj)
-			handler.OnCreate(aobj)
+			if aobj, err := adapter.adaptObject(obj); err == nil {
+				handler.OnCreate(aobj)
+			}
 		}).
 		OnUpdate(func(obj metav1.Object) {
-			aobj, _ := adapter.adaptObject(obj)
-			handler.OnUpdate(aobj)
+			if aobj, err := adapter.adaptObject(obj); err == nil {
+				handler.OnUpdate(aobj)
+			}
 		}).
 		OnDelete(func(obj metav1.Object) {
-			aobj, _ := adapter.adaptObject(obj)
-			handler.OnDelete(aobj)
+			if aobj, err := adapter.adaptObject(obj); err == nil {
+				handler.OnDelete(aobj)
+			}
 		}).Create()
 
 	switch obj := publisher.(type) {
